@@ -141,6 +141,7 @@ def _run_case(case):
     data_leaves = [i for i in g.get("data", {}) if i in dic]  # data held in parameters (counts): updated through the same interface
     tviews = [i for i, o in dic.items() if isinstance(o, ViewParameter) and isinstance(o.parameter, TransformedParameter)]
     tview_written = False
+    cviews = [i for i, o in dic.items() if isinstance(o, ViewParameter) and type(o.parameter).__name__ == "CatParameter"]
 
     def leaf_values():
         return {i: dic[i].tensor.detach().clone().tolist() for i in list(leaves) + extra_leaves + data_leaves}
@@ -247,8 +248,18 @@ def _run_case(case):
             topt = torch.optim.LBFGS(tensors, lr=1e-3, max_iter=int(rng.integers(1, 4)))
         target = dic[e]
         opt = Optimizer("vt.opt", params, lambda: target().sum(), topt, iterations, maximize=True)  # (Optimizer wants a scalar loss)
-        with contextlib.redirect_stdout(io.StringIO()):
-            opt.run()
+        try:
+            with contextlib.redirect_stdout(io.StringIO()):
+                opt.run()
+        except ValueError as ex:
+            if "within the support" not in str(ex):
+                raise
+            # the unconstrained optimiser left the support in the middle of the run and torch.distributions says so: not an update with
+            # valid values; the parameters are given new values
+            for pid in chosen:
+                dic[pid].tensor = new_value(pid)
+            C["optimizer_left_support"] = C.get("optimizer_left_support", 0) + 1
+            return "Optimizer.run (%s) left the support; %s re-assigned" % (kind, ", ".join(chosen))
         # an unconstrained optimiser can leave the support (nothing the property is about): such a parameter is given a new value
         for pid in chosen:
             t = dic[pid].tensor.detach()
@@ -313,7 +324,7 @@ def _run_case(case):
 
     ok = True
     for step in range(case["length"]):
-        op = str(rng.choice(OPS + (["heights-shape"] * 3 if extra_leaves else []) + (["assign-view-of-transformed"] if tviews else []) + (["assign-data"] * 2 if data_leaves else [])))
+        op = str(rng.choice(OPS + (["heights-shape"] * 3 if extra_leaves else []) + (["assign-view-of-transformed"] if tviews else []) + (["derived-shape"] if tps else []) + (["assign-view-of-cat"] * 2 if cviews else []) + (["assign-data"] * 2 if data_leaves else [])))
         desc = None
         tview_written = False
         try:
@@ -396,10 +407,39 @@ def _run_case(case):
                 v.tensor = v.tensor.detach() * float(np.exp(abs(rng.normal(0, 0.2))))
                 tview_written = True
                 desc = "assign through view %s of a transformed parameter" % vid
+            elif op == "assign-view-of-cat" and cviews:
+                vid = str(rng.choice(cviews))
+                v = dic[vid]
+                # (the zoo's views of concatenations cover real-valued entries)
+                v.tensor = torch.tensor(rng.normal(0, 1, tuple(v.tensor.shape)))
+                desc = "assign through view %s of a concatenation" % vid
             elif op == "optimizer-run":
                 desc = run_optimizer()
             elif op == "hmc-step-size-search":
                 desc = run_step_size_search()
+            elif op == "derived-shape" and tps:
+                # the parameter behind a transformed parameter takes a sample dimension (what a draw with a sample shape does) and loses it
+                # again: whichever of shape and value is asked first, they describe the same tensor
+                tid = str(rng.choice(tps))
+                t = dic[tid]
+                src = t.x
+                if isinstance(src, (list, tuple)) or type(src).__name__ != "Parameter" or src.tensor.dim() != 1:
+                    continue
+                _ = t.tensor  # (the value has been asked for before)
+                old = src.tensor.detach().clone()
+                S = int(rng.choice([2, 3]))
+                src.tensor = torch.stack([old * float(f) for f in rng.uniform(0.9, 1.0, S)])
+                shape_first = tuple(t.shape)
+                value_shape = tuple(t.tensor.shape)
+                src.tensor = old
+                shape_back, value_back = tuple(t.shape), tuple(t.tensor.shape)
+                C["derived_shape_reads"] = C.get("derived_shape_reads", 0) + 1
+                if shape_first != value_shape or shape_back != value_back:
+                    V.append(tt.viol("C11:stale:derived-shape:%s" % type(t.transform).__name__, "%s: after the parameter behind %s got sample shape [%d] its shape reads %s while its value has shape %s (back without: %s / %s)" % (
+                        gname, tid, S, shape_first, value_shape, shape_back, value_back), history=history[-12:]))
+                    ok = False
+                    break
+                desc = "sample shape [%d] on the parameter behind %s, and back" % (S, tid)
             elif op == "assign-data" and data_leaves:
                 did = str(rng.choice(data_leaves))
                 cur = dic[did].tensor
